@@ -36,6 +36,10 @@ type c03Mut struct {
 type c03Plan struct {
 	Seed   uint64     `json:"seed"`
 	Blocks [][]c03Mut `json:"blocks"`
+	// Alt[b] (optional): a sibling state built from the same parent as block b; both are committed to
+	// the memory layer first and then flushed to disk, the sibling first when AltFirst[b]
+	Alt      map[int][]c03Mut `json:"alt,omitempty"`
+	AltFirst map[int]bool     `json:"alt_first,omitempty"`
 	// WriteFault: in block B make the K-th physical write fail (0 = none)
 	FaultBlock int `json:"fault_block,omitempty"`
 	FaultWrite int `json:"fault_write,omitempty"`
@@ -61,7 +65,7 @@ func (c03) Describe() runner.Description {
 		Assumptions: []string{"crash model = process death: completed physical writes (Put or whole batch) survive, nothing is torn or lost (the code never syncs; the properties speak of process death)", "values read back on the un-crashed state right after each commit are the reference"},
 		Real:        []string{"storage/account (AccountDB.Commit, account objects)", "storage/trie (NodeDatabase.Commit, commit ordering, batches)", "storage/rlp"},
 		Stub:        []string{"disk: simdisk.KV (write log, crash images, write faults)"},
-		FaultKinds:  []string{"crash_after_write_k", "crash_inside_multibatch_commit", "disk_write_error"},
+		FaultKinds:  []string{"sibling_states_in_memory", "crash_after_write_k", "crash_inside_multibatch_commit", "disk_write_error"},
 		Exhaustive:  true,
 	}
 }
@@ -121,6 +125,22 @@ func (c03) Gen(seed uint64, tier string) json.RawMessage {
 	if r.Chance(0.3) {
 		p.FaultBlock = r.Range(1, nb)
 		p.FaultWrite = r.Range(1, 3)
+	} else if r.Chance(0.5) {
+		p.Alt, p.AltFirst = map[int][]c03Mut{}, map[int]bool{}
+		for b := 0; b < nb; b++ {
+			if r.Chance(0.4) {
+				var alt []c03Mut
+				for i := r.Range(1, 5); i > 0; i-- {
+					m := c03Mut{A: r.Intn(len(c03Addrs)), S: r.Intn(c03NSlots), K: []string{"bal", "nonce", "data", "data", "code"}[r.Intn(5)], N: r.Range(1, 400)}
+					if r.Chance(0.3) && (m.K == "data" || m.K == "code") {
+						m.N = r.Range(20000, 50000)
+					}
+					alt = append(alt, m)
+				}
+				p.Alt[b] = alt
+				p.AltFirst[b] = r.Chance(0.5)
+			}
+		}
 	}
 	b, _ := json.Marshal(p)
 	return b
@@ -279,6 +299,7 @@ func (c03) Exec(raw json.RawMessage, stt *simrt.Stats, log *simrt.Log) *simrt.Vi
 		return nil
 	}
 
+	parentRoot := root
 	for b, blk := range p.Blocks {
 		stt.Ops++
 		for i, m := range blk {
@@ -290,9 +311,34 @@ func (c03) Exec(raw json.RawMessage, stt *simrt.Stats, log *simrt.Log) *simrt.Vi
 		if p.FaultBlock == b+1 && p.FaultWrite > 0 {
 			kv.ArmWriteFault(p.FaultWrite)
 		}
+		var stAlt *account.AccountDB
+		var altRoot common.Hash
+		if alt, ok := p.Alt[b]; ok && p.FaultBlock != b+1 {
+			stAlt, _ = account.NewAccountDB(roots[len(roots)-1].root, adb)
+			if parentRoot != (common.Hash{}) {
+				stAlt, _ = account.NewAccountDB(parentRoot, adb)
+			}
+			for i, m := range alt {
+				c03Apply(stAlt, m, p.Seed+uint64(b*100+50+i))
+			}
+		}
 		newRoot, err := st.Commit(true)
+		if err == nil && stAlt != nil {
+			altRoot, err = stAlt.Commit(true) // both states sit in the memory layer before either is flushed
+			stt.Fault("sibling_states_in_memory")
+		}
 		if err == nil {
-			err = adb.TrieDB().Commit(newRoot, false)
+			if stAlt != nil && p.AltFirst[b] {
+				err = adb.TrieDB().Commit(altRoot, false)
+				if err == nil {
+					err = adb.TrieDB().Commit(newRoot, false)
+				}
+			} else {
+				err = adb.TrieDB().Commit(newRoot, false)
+				if err == nil && stAlt != nil {
+					err = adb.TrieDB().Commit(altRoot, false)
+				}
+			}
 		}
 		if kv.WriteFaults > 0 && p.FaultBlock == b+1 {
 			faulted = true
@@ -327,6 +373,18 @@ func (c03) Exec(raw json.RawMessage, stt *simrt.Stats, log *simrt.Log) *simrt.Vi
 			if faulted {
 				continue
 			}
+			if stAlt != nil {
+				atop, _ := img.Has(altRoot.Bytes())
+				if atop || k == n {
+					clause := "root-present-but-incomplete"
+					if k == n {
+						clause = "acknowledged-root-not-durable"
+					}
+					if miss := c03Walk(img, altRoot); miss != "" {
+						return viol(b, clause, "sibling-"+c03Where(miss), "block %d sibling root %x, crash after write %d of %d: %s", b, altRoot.Bytes(), k, n, miss)
+					}
+				}
+			}
 			top, _ := img.Has(newRoot.Bytes())
 			if top || k == n {
 				clause := "root-present-but-incomplete"
@@ -352,6 +410,18 @@ func (c03) Exec(raw json.RawMessage, stt *simrt.Stats, log *simrt.Log) *simrt.Vi
 			return v
 		}
 		roots = append(roots, d)
+		if stAlt != nil {
+			liveAlt, err := account.NewAccountDB(altRoot, adb)
+			if err != nil {
+				return viol(b, "acknowledged-root-not-durable", "open-live-sibling", "block %d sibling root %x: %v", b, altRoot.Bytes(), err)
+			}
+			da := durable{altRoot, c03Observe(liveAlt)}
+			if v := checkRoot(b, simdisk.Image(kv.Snapshot(), nil, 0), da, "acknowledged-root-not-durable"); v != nil {
+				return v
+			}
+			roots = append(roots, da)
+		}
+		parentRoot = newRoot
 		stt.State(simrt.HashString(strings.Join(d.obs, ";")))
 		// next block: continue on the same AccountDB object or a fresh one (both occur in the node)
 		if (p.Seed>>uint(b))&1 == 0 {
